@@ -43,6 +43,7 @@ type FV struct {
 	TV
 	OnStorable *FailSwitch
 	OnStored   *FailSwitch
+	OnCopy     *FailSwitch // handed to the FS: its CopyNonRefSimple() consults it
 }
 
 var _ atree.Value = FV{}
@@ -51,10 +52,10 @@ func (v FV) Storable(storage atree.SlabStorage, addr atree.Address, maxInline ui
 	if v.OnStorable.Hit() {
 		return nil, ErrInjected
 	}
-	if v.OnStored == nil {
+	if v.OnStored == nil && v.OnCopy == nil {
 		return v.TV.Storable(storage, addr, maxInline)
 	}
-	fs := FS{TV: v.TV, On: v.OnStored}
+	fs := FS{TV: v.TV, On: v.OnStored, OnCopy: v.OnCopy}
 	if v.Size > maxInline {
 		return atree.NewStorableSlab(storage, addr, fs, v.Size)
 	}
@@ -67,7 +68,8 @@ func (v FV) String() string { return fmt.Sprintf("fv%d", v.Pay) }
 // StoredValue() fails when the switch says so and otherwise yields the TV.
 type FS struct {
 	TV
-	On *FailSwitch
+	On     *FailSwitch
+	OnCopy *FailSwitch
 }
 
 var _ atree.Storable = FS{}
@@ -79,7 +81,12 @@ func (s FS) StoredValue(atree.SlabStorage) (atree.Value, error) {
 	return s.TV, nil
 }
 
-func (s FS) CopyNonRefSimple() (atree.Storable, error) { return s, nil }
+func (s FS) CopyNonRefSimple() (atree.Storable, error) {
+	if s.OnCopy.Hit() {
+		return nil, ErrInjected
+	}
+	return s, nil
+}
 
 func (s FS) String() string { return fmt.Sprintf("fs%d", s.Pay) }
 
